@@ -90,8 +90,20 @@ def after_run(lab, ref, spec, root, st, res, witness):
             res.count('multi_level_group_tasks')
 
 
+def _gen_object_value(rng):
+    """parameter objects of the lab whose text is frozen in refscheme (incl. a class that names its own ignorable arguments); top level only"""
+    return rng.choice([
+        {'class': 'tc_verif.lab.runtime.LabOpTuned', 'kwargs': {'amount': rng.choice([3, 'x']), 'debug': rng.choice([True, False]), 'verbose': rng.choice([True, False]),
+                                                                'cache_dir': rng.choice(['/tmp/c', None])}},
+        {'class': 'tc_verif.lab.runtime.LabOpAdd', 'kwargs': {'amount': rng.choice([3, [1, 2]])}},
+        {'class': 'tc_verif.lab.runtime.LabOpMul', 'kwargs': {'amount': 3, 'unit': 'm'}},
+        {'class': 'tc_verif.lab.runtime.LabObj', 'kwargs': {'a': rng.choice([1, 'z']), 'b': rng.choice([3, 4]), 'verbose': rng.choice([True, False])}}])
+
+
 def gen_keyed_value(rng, depth=0):
     """parameter values as python / YAML configs can hold them: mappings keyed by ints or floats (numeric order differs from textual order), nested"""
+    if depth == 0 and rng.random() < 0.12:
+        return _gen_object_value(rng)
     r = rng.random()
     if depth < 3 and r < 0.35:
         kind = rng.choice(['int', 'int', 'float', 'str', 'neg'])
@@ -119,7 +131,7 @@ def check_values(rng, n, res: CaseResult):
             except TypeError:
                 continue
             given = v
-            if rng.random() < 0.3:
+            if rng.random() < 0.3 and not refscheme.is_objdef(v):       # (object definitions are recognised as plain dicts only)
                 # the same mapping handed over as a dict SUBCLASS with another insertion order (OrderedDict, defaultdict, attribute-access dicts of code-built configs)
                 import collections
 
